@@ -934,7 +934,8 @@ func NamedType(na px.URI, name string, value px.Value) px.Type {
 	} else if h, ok := value.(px.OrderedMap); ok {
 		ta = createMetaType2(na, name, `Object`, ``, h)
 	} else {
-		panic(fmt.Sprintf(`cannot create object from a %s`, dt.String()))
+		// dt is nil here: describe the value that was given
+		panic(px.Error(px.Failure, issue.H{`message`: fmt.Sprintf(`cannot create type %s from a %s`, name, value.PType())}))
 	}
 	return ta
 }
